@@ -2454,8 +2454,8 @@ n_eq_d:
 /* Euclid's algorithm */
 static inline int
 bn_gcd(bn_p bn, bn_p a, bn_p b) {
-	bn_t tmp;
-	bn_p ta = bn, tb = &tmp;
+	bn_t tmp, tmp2; /* Do not use bn as a work area: it may be a or b and it keeps its own capacity. */
+	bn_p ta = &tmp2, tb = &tmp;
 
 	BN_POINTER_CHK_EINVAL(bn);
 	BN_POINTER_CHK_EINVAL(a);
@@ -2494,8 +2494,8 @@ bn_gcd(bn_p bn, bn_p a, bn_p b) {
 static inline int
 bn_gcd_bin(bn_p bn, bn_p a, bn_p b) {
 	size_t shift, shift_a, shift_b;
-	bn_t tmp;
-	bn_p ta = bn, tb = &tmp;
+	bn_t tmp, tmp2; /* Do not use bn as a work area: it may be a or b and it keeps its own capacity. */
+	bn_p ta = &tmp2, tb = &tmp;
 
 	BN_POINTER_CHK_EINVAL(bn);
 	BN_POINTER_CHK_EINVAL(a);
@@ -2534,8 +2534,8 @@ bn_gcd_bin(bn_p bn, bn_p a, bn_p b) {
 		BN_RET_ON_ERR(bn_sub(tb, ta, NULL)); /* Here b >= a. */
 		shift_b = bn_ctz(tb);
 	}
+	bn_l_shift(ta, shift); /* Restore common factors of 2. */
 	BN_RET_ON_ERR(bn_assign(bn, ta));
-	bn_l_shift(bn, shift); /* Restore common factors of 2. */
 	return (0);
 }
 /* Extended Euclid's algorithm */
